@@ -712,6 +712,20 @@ func (p *prover) lowerBoundInt(v ssa.Value, depth int) (int64, bool) {
 			_ = nx
 			return 0, true
 		}
+		// one of several results of a module function: non-negative when every return proves it so
+		if call, ok := x.Tuple.(*ssa.Call); ok && isIntType(x.Type()) {
+			if callees := p.ix.moduleCallees(p.fn, call); len(callees) > 0 {
+				all := true
+				for _, f := range callees {
+					if !p.ix.funcResultNonNegIdx(f, x.Index) {
+						all = false
+					}
+				}
+				if all {
+					return 0, true
+				}
+			}
+		}
 	case *ssa.UnOp:
 		if x.Op == token.MUL {
 			if f, _ := loadedField(x); f != nil {
